@@ -38,6 +38,10 @@ class Prop:
     def view(self, case, line):
         return line
 
+    def agree(self, case, il, ml):
+        """do implementation line and model line agree inside this property's view?"""
+        return self.view(case, il) == self.view(case, ml)
+
     def outcome(self, case, line):
         w = line.split(" ")
         if w[0] == "ERR" and len(w) > 1:
